@@ -107,7 +107,8 @@ pub(crate) struct SecureDiscovery {
 
   // In the key, first GUID is local endpoint's, second is remote endpoint's
   cached_received_key_exchange_messages: HashMap<(GUID, GUID), ParticipantVolatileMessageSecure>,
-  user_data_endpoints_with_keys_already_sent_to: HashSet<GUID>,
+  // Also here the first GUID is local endpoint's, second is remote endpoint's
+  user_data_endpoints_with_keys_already_sent_to: HashSet<(GUID, GUID)>,
 
   // A set for keeping track which remote readers are relay-only
   relay_only_remote_readers: HashSet<GUID>,
@@ -2422,7 +2423,7 @@ impl SecureDiscovery {
     // See if we have already sent our keys. Do nothing if so.
     let we_have_sent_ours = self
       .user_data_endpoints_with_keys_already_sent_to
-      .contains(&remote_endpoint_guid);
+      .contains(&(local_endpoint_guid, remote_endpoint_guid));
     if we_have_sent_ours {
       return;
     }
@@ -2474,7 +2475,7 @@ impl SecureDiscovery {
       // Mark as if we have sent keys to the remote
       self
         .user_data_endpoints_with_keys_already_sent_to
-        .insert(remote_endpoint_guid);
+        .insert((local_endpoint_guid, remote_endpoint_guid));
       return;
     }
 
@@ -2576,7 +2577,7 @@ impl SecureDiscovery {
     // Remember that we have successfully sent the keys
     self
       .user_data_endpoints_with_keys_already_sent_to
-      .insert(remote_endpoint_guid);
+      .insert((local_endpoint_guid, remote_endpoint_guid));
   }
 
   fn validate_remote_participant_permissions(
